@@ -70,7 +70,11 @@ def attribute_annotations(
         if not defined:
             continue
 
-        localns: dict[str, Any] = {base.__name__: base}
+        localns: dict[str, Any] = {
+            # type parameters are not visible when evaluating annotations given as strings
+            **{parameter.__name__: parameter for parameter in getattr(base, "__type_params__", ())},
+            base.__name__: base,
+        }
         hints: dict[str, Any] = get_type_hints(base, localns=localns)
         for key in defined:
             annotations[key] = (hints[key], localns)
